@@ -186,6 +186,14 @@ def check(prop, tier, seed):
                 for c, r in zip(ch, f.result()):
                     if "error" in r:
                         engine_errors.append("differential replay %s errored: %s" % (c["tag"], r["error"]))
+                    elif r.get("ok") is False:
+                        # the oracle fails on pristine code for these concrete inputs although the symbolic path passed it: the
+                        # engine's model hid the behaviour (e.g. CrossHair switches functools.lru_cache off while tracing) - the
+                        # concrete run is a reproduced counterexample in its own right
+                        call = {k: v for k, v in c.items() if k != "_obs"}
+                        path = os.path.join(HERE, "replay", "%s-%s.json" % (prop, c["tag"].replace("/", "_").replace(" ", "_").replace("#", "_diff")))
+                        json.dump({"property": prop, "module": modname, "call": call, "observed": r}, open(path, "w"), indent=1)
+                        violations.append((c["tag"], path, "(found by the differential replay of a discharged path) " + r.get("why", "")))
                     elif r.get("ok") is not True or r.get("obs") != c["_obs"]:
                         engine_errors.append("differential replay mismatch at %s: symbolic obs %s concrete %s ok=%s" % (
                             c["tag"], json.dumps(c["_obs"])[:300], json.dumps(r.get("obs"))[:300], r.get("ok")))
